@@ -12,6 +12,9 @@ pub struct Attr<P>(pub P);
 
 pub trait IsEmpty {
     fn is_empty(&self) -> bool;
+
+    /// The span (the hygiene) of the attribute as a whole
+    fn span(&self) -> Span;
 }
 
 impl<P: ToTokens> ToTokens for Attr<P> {
@@ -33,17 +36,19 @@ impl<P: ToTokens + IsEmpty> ToTokens for ExportGatedAttr<'_, P> {
         if self.params.is_empty() {
             return;
         }
-        push_tokens!(stream, syn::token::Pound::default());
-        syn::token::Bracket::default().surround(stream, |stream| {
+        // (a macro's `Span::call_site()` is that of the attribute that invokes it)
+        let span = self.params.span();
+        push_tokens!(stream, syn::token::Pound(span));
+        syn::token::Bracket(span).surround(stream, |stream| {
             if self.opts.export_value() {
                 push_tokens!(stream, self.params);
             } else {
-                push_tokens!(stream, syn::Ident::new("cfg_attr", Span::call_site()));
-                syn::token::Paren::default().surround(stream, |stream| {
+                push_tokens!(stream, syn::Ident::new("cfg_attr", span));
+                syn::token::Paren(span).surround(stream, |stream| {
                     push_tokens!(
                         stream,
-                        syn::Ident::new("test", Span::call_site()),
-                        syn::token::Comma::default(),
+                        syn::Ident::new("test", span),
+                        syn::token::Comma(span),
                         self.params
                     );
                 });
@@ -97,6 +102,10 @@ pub struct UnimockAttrParams<'s> {
 impl IsEmpty for UnimockAttrParams<'_> {
     fn is_empty(&self) -> bool {
         matches!(self.trait_indirection, TraitIndirection::Plain) && self.mock_api.is_none()
+    }
+
+    fn span(&self) -> Span {
+        self.span
     }
 }
 
@@ -217,6 +226,10 @@ pub struct MockallAutomockParams {
 impl IsEmpty for MockallAutomockParams {
     fn is_empty(&self) -> bool {
         false
+    }
+
+    fn span(&self) -> Span {
+        self.span
     }
 }
 
